@@ -16,15 +16,17 @@
 (***************************************************************************)
 EXTENDS Integers, Sequences, FiniteSets, TLC
 
-CONSTANTS N, MaxOps, WithTxn
+CONSTANTS N, MaxOps, WithTxn,
+          WithDDL      \* TRUE: the table starts WITHOUT secondary indexes; CREATE INDEX / DROP INDEX are steps (C10, C21 at scale)
 Ids == 1..N
 NoRow == -1
 
 VARIABLES a,        \* [Ids -> NoRow or the row's a value]
           txn,      \* <<>> or <<snapshot of a at BEGIN>> (one handle, no savepoints)
+          idx,      \* secondary indexes that exist: a subset of {"a", "pad"}
           nops, hist
-vars == <<a, txn, nops, hist>>
-view == <<a, txn, nops>>
+vars == <<a, txn, idx, nops, hist>>
+view == <<a, txn, idx, nops>>
 
 Present == {i \in Ids : a[i] # NoRow}
 InRange(lo, hi) == {i \in Present : lo <= i /\ i <= hi}
@@ -38,19 +40,21 @@ Probes == [count |-> Card(Present),
            min |-> IF Present = {} THEN NoRow ELSE CHOOSE i \in Present : \A j \in Present : i <= j,
            max |-> IF Present = {} THEN NoRow ELSE CHOOSE i \in Present : \A j \in Present : i >= j]
 
-Init == a = [i \in Ids |-> NoRow] /\ txn = <<>> /\ nops = 0 /\ hist = <<>>
+Init == a = [i \in Ids |-> NoRow] /\ txn = <<>> /\ nops = 0 /\ hist = <<>> /\ idx = IF WithDDL THEN {} ELSE {"a"}
 
-StepT(op, n, newa, newtxn) ==
-                     /\ nops < MaxOps /\ a' = newa /\ txn' = newtxn /\ nops' = nops + 1
-                     /\ hist' = Append(hist, [op |-> op, n |-> n, intxn |-> newtxn # <<>>,
+ProbesOf(f) == [count |-> Card({i \in Ids : f[i] # NoRow}),
+                pts |-> [i \in ProbeIds \cap Ids |-> f[i]],
+                eq0 |-> Card({i \in Ids : f[i] = 0}), eq3 |-> Card({i \in Ids : f[i] = 3}),
+                eq11 |-> Card({i \in Ids : f[i] = 11}),
+                r1 |-> Card({i \in 60..70 : i \in Ids /\ f[i] # NoRow}),
+                r2 |-> Card({i \in 120..260 : i \in Ids /\ f[i] # NoRow}),
+                r3 |-> Card({i \in (N - 5)..N : f[i] # NoRow})]
+StepX(op, n, newa, newtxn, newidx) ==
+                     /\ nops < MaxOps /\ a' = newa /\ txn' = newtxn /\ idx' = newidx /\ nops' = nops + 1
+                     /\ hist' = Append(hist, [op |-> op, n |-> n, intxn |-> newtxn # <<>>, idx |-> newidx,
                                              rows |-> {<<i, newa[i]>> : i \in {j \in Ids : newa[j] # NoRow}},
-                                             probes |-> [count |-> Card({i \in Ids : newa[i] # NoRow}),
-                                                         pts |-> [i \in ProbeIds \cap Ids |-> newa[i]],
-                                                         eq0 |-> Card({i \in Ids : newa[i] = 0}), eq3 |-> Card({i \in Ids : newa[i] = 3}),
-                                                         eq11 |-> Card({i \in Ids : newa[i] = 11}),
-                                                         r1 |-> Card({i \in 60..70 : i \in Ids /\ newa[i] # NoRow}),
-                                                         r2 |-> Card({i \in 120..260 : i \in Ids /\ newa[i] # NoRow}),
-                                                         r3 |-> Card({i \in (N - 5)..N : newa[i] # NoRow})]])
+                                             probes |-> ProbesOf(newa)])
+StepT(op, n, newa, newtxn) == StepX(op, n, newa, newtxn, idx)
 Step(op, n, newa) == StepT(op, n, newa, txn)
 
 Lens == {1, 7, 8, 9, 40, 100, 150}
@@ -80,7 +84,14 @@ Begin == WithTxn /\ txn = <<>> /\ StepT([k |-> "begin"], 0, a, <<a>>)
 Commit == txn # <<>> /\ StepT([k |-> "commit"], 0, a, <<>>)
 Rollback == txn # <<>> /\ StepT([k |-> "rollback"], 0, txn[1], <<>>)
 
-Next == InsertRun \/ InsertRun \/ DeleteRange \/ DeleteEq \/ UpdateRange \/ (\E w \in 1..40 : Reopen)
+\* DDL on the populated table: no row, no count and no query result changes (the model state is untouched); what
+\* changes is the access path the implementation may take from then on - and the new index must hold every row
+CreateIndex(c) == WithDDL /\ txn = <<>> /\ c \notin idx /\ StepX([k |-> "create_index", col |-> c], 0, a, txn, idx \cup {c})
+DropIndex(c) == WithDDL /\ txn = <<>> /\ c \in idx /\ StepX([k |-> "drop_index", col |-> c], 0, a, txn, idx \ {c})
+DDL == \E c \in {"a", "pad"} : (\E w \in 1..(IF Card(Present) >= 100 THEN 60 ELSE 5) : CreateIndex(c)) \/ (\E w \in 1..10 : DropIndex(c))
+FillRun == WithDDL /\ InsertRunOf({300})
+
+Next == DDL \/ FillRun \/ InsertRun \/ InsertRun \/ DeleteRange \/ DeleteEq \/ UpdateRange \/ (\E w \in 1..40 : Reopen)
         \/ (\E w \in 1..160 : Begin) \/ (\E w \in 1..40 : Commit) \/ (\E w \in 1..40 : Rollback) \/ InsertBigInTxn
 Spec == Init /\ [][Next]_vars
 
